@@ -52,6 +52,7 @@ LABEL_POOLS = [
     ["grp_1", "grp_2", "grp", "g", "grp_1_x"],
     ["x y", "x", "y", "ß", "é"],
     ["A", "a", "AA", "aa", "Z"],
+    ["all", "none", "total", "nan", "index", "groups", "0"],  # ordinary strings that read like keywords / sentinels
 ]
 GROUP_METRICS = ["group_tpr", "group_fnr", "group_tnr", "group_fpr", "group_topr", "group_tonr", "group_tar", "group_frr",
                  "group_trr", "group_far", "group_acceptance_rate", "group_rejection_rate"]
